@@ -58,8 +58,80 @@ def installed : Option (List (Name × Dunder)) := install ALV.Gen.OpTable.table
 def builderName : Builder → String
   | .unary => "unary" | .binary => "binary" | .rbinary => "rbinary"
 
+def getKind (s : String) : Except String CKind :=
+  match s with
+  | "scalar" => pure .scalar | "str" => pure .str
+  | "list" => pure .list | "tuple" => pure .tuple | "set" => pure .set | "frozenset" => pure .frozenset
+  | "deque" => pure .deque
+  | "generator" => pure .generator | "range" => pure .range | "enumerate" => pure .enumerate | "zip" => pure .zip
+  | "zip_longest" => pure .zipLongest | "map" => pure .map | "filter" => pure .filter
+  | "stream" => pure .stream | "streamSub" => pure .streamSub
+  | _ => throw s!"C01: unknown container kind {s}"
+
+def kindName : CKind → String
+  | .scalar => "scalar" | .str => "str" | .list => "list" | .tuple => "tuple" | .set => "set"
+  | .frozenset => "frozenset" | .deque => "deque" | .generator => "generator" | .range => "range"
+  | .enumerate => "enumerate" | .zip => "zip" | .zipLongest => "zip_longest" | .map => "map"
+  | .filter => "filter" | .stream => "stream" | .streamSub => "streamSub"
+
+def outKindName : OutKind → String
+  | .value => "value" | .generator => "generator" | .stream => "stream"
+  | .same k => "same:" ++ kindName k | .keyError => "keyError"
+
+/-- {"c":"obj","kind":k,"self":id} | {"c":"sized","kind":k,"tag":t,"xs":[ids]} |
+    {"c":"lazy","kind":k,"tag":t,"xs":[ids]} | {"c":"lazy","kind":k,"rep":id} -/
+def getBArg (j : Json) : Except String BArg := do
+  let k ← getKind (← getStr (← field j "kind"))
+  match ← getStr (← field j "c") with
+  | "obj" => pure (.obj k (← getTerm (← field j "self")))
+  | "sized" => pure (.sized k (← getNat (← field j "tag")) (← getList getTerm (← field j "xs")))
+  | "lazy" =>
+    match optField j "rep" with
+    | some r => pure (.lazy k (.rep (← getTerm r)))
+    | none => pure (.lazy k (.list (← getNat (← field j "tag")) (← getList getTerm (← field j "xs"))))
+  | c => throw s!"C01: unknown argument class {c}"
+
 def handle (entry : String) (j : Json) : Except String Json := do
   match entry with
+  | "bcast" =>
+    let f := nm (← getStr (← field j "f"))
+    let dname := nm (← getStr (← field j "dname"))
+    let dpos ← match optField j "dpos" with
+      | some v => do pure (some (← getNat v))
+      | none => pure none
+    let args ← getList getTerm (← field j "args")
+    let kwargs ← getList (fun kv => do
+        let a ← getArr kv
+        match a with
+        | [k, v] => pure (nm (← getStr k), ← getTerm v)
+        | _ => throw "kwargs entry must be [name, id]") (← field j "kwargs")
+    let arg ← getBArg (← field j "arg")
+    let n ← getNat (← field j "n")
+    let c : ECall := { f := f, dname := dname, dpos := dpos, args := args, kwargs := kwargs, arg := arg }
+    let model : Json := match elementwise c with
+      | .value t => Json.mkObj [("out", Json.str "value"), ("items", arr termJson [t])]
+      | .gen it =>
+        let r := it.runS n
+        Json.mkObj [("out", Json.str "generator"), ("items", arr termJson r.1),
+                    ("unread0", unreadJson it.unread), ("unread", unreadJson r.2.unread)]
+      | .stream it =>
+        let r := it.runS n
+        Json.mkObj [("out", Json.str "stream"), ("items", arr termJson r.1),
+                    ("unread0", unreadJson it.unread), ("unread", unreadJson r.2.unread)]
+      | .cast k items left =>
+        Json.mkObj [("out", Json.str ("same:" ++ kindName k)), ("items", arr termJson items),
+                    ("unread", unreadJson left.unread)]
+      | .keyError => Json.mkObj [("out", Json.str "keyError")]
+    -- spec: kind by the property's rule; items = the function applied with each item in the argument's place
+    let srcItems : List Term := match arg with
+      | .obj _ self => [self]
+      | .sized _ _ xs => xs
+      | .lazy _ src => (List.range n).filterMap src.get
+    let spec := Json.mkObj [
+      ("found", Json.bool c.found),
+      ("out", Json.str (outKindName (if c.found then bcastKind arg.kind else .keyError))),
+      ("items", arr termJson (srcItems.map c.callWith))]
+    pure <| Json.mkObj [("model", model), ("spec", spec)]
   | "expr" =>
     let p ← getPy (← field j "prog")
     let n ← getNat (← field j "n")
